@@ -195,7 +195,13 @@ CaseU(cs) == [kind |-> cs.kind, a |-> cs.a, toks |-> <<>>, u |-> cs.u,
               u0 |-> IF cs.kind = "num" THEN CanonNum(cs.a[1], cs.a[2]) ELSE Spell(StrValues[cs.a[1]], 39, "raw")]
 EnumInit == ph = "start" /\ cur = NoCase /\ rec_i = 0
 \* two levels so that the successors are spread over the workers
-Groups == {<<"tree", o1>> : o1 \in 1..NC} \cup {<<"rej", 0>>, <<"unexp", 0>>, <<"lit", 0>>} \cup {<<"prog", pi>> : pi \in 1..Len(Progs)}
+\* a run may enumerate only the trees whose root constructor lies in O1LO..O1HI (batches of the thorough tier);
+\* the other groups belong to the batch that contains constructor 1
+EnvNat(nm, dflt) == IF nm \in DOMAIN IOEnv THEN (CHOOSE nn \in 0..999 : ToString(nn) = IOEnv[nm]) ELSE dflt
+O1Lo == EnvNat("O1LO", 1)
+O1Hi == EnvNat("O1HI", NC)
+Groups == {<<"tree", o1>> : o1 \in O1Lo..O1Hi}
+          \cup (IF O1Lo = 1 THEN {<<"rej", 0>>, <<"unexp", 0>>, <<"lit", 0>>} \cup {<<"prog", pi>> : pi \in 1..Len(Progs)} ELSE {})
 EnumNext ==
   \/ /\ ph = "start"
      /\ \E gr \in Groups : ph' = "group" /\ cur' = [NoCase EXCEPT !.kind = gr[1], !.a = <<gr[2]>>]
